@@ -390,7 +390,7 @@ pub enum Timed {
 /// about 0.5 microseconds per unit of weight (1.1 s at weight 2x10^6; see the cpu-time-* classes in the evidence).
 pub const CPU_BUDGET_TICKS: u64 = 500;
 /// after a first overrun in a shard (i.e. while proptest shrinks it) the budget is lowered so that shrinking stays affordable
-pub const CPU_BUDGET_TICKS_SHRINK: u64 = 600;
+pub const CPU_BUDGET_TICKS_SHRINK: u64 = 200;
 
 struct Worker {
     child: std::process::Child,
@@ -563,7 +563,7 @@ pub fn run(ctx: &Ctx) -> (Outcome, String, Option<bool>) {
             r
         },
     );
-    let rule = format!("Generated: nested loops up to syntactic depth {} with iteration counts 0/1/2/3/65535/random and body lengths that overrun the program or the enclosing loop; doubling prefixes (dup;bappend / dup;vappend, k up to {}) followed by every consuming opcode; type-aware random programs; jump-heavy code; doubling inside counted loops of 1 to 65535 iterations (lengths pass 2^64 after ~60). Doubling prefixes of 40-58 steps (2^40..2^58 logical elements in shared nodes) feed consumers that never materialise the value: an equal huge value written over a vector slot that holds it, nested vectors of equal huge values. Oracle: (4) every covenant is first weighed and executed once in a worker process whose CPU time (utime+stime from /proc) must stay below 5 s + 10 microseconds per unit of weight (measured on the unchanged tree: at most ~0.5 microseconds per unit of weight, 1.1 s at weight 2x10^6; see the cpu-time-* classes); a run over the budget is cut off by killing the worker (6 s while a failure is being shrunk); deterministic counters: (1) the real interpreter, stepped one instruction at a time through the cfg(melstf_verif) re-export, never executes more instructions than Covenant::weight() (runs with weight > {} are excluded and counted); (2) weight() equals the specification formula and needs <= 8n^2+64 weigh steps (thread-local counter hook); (3) peak heap bytes of weight()+execution <= 4 MiB + 16 KiB*(covenant bytes + weight) (one pushed value costs up to ~4.2 KiB in the persistent-vector representation, measured), measured by a counting allocator. Non-trivial = program contains a loop or a doubling prefix; distinct by bytecode.", NEST_CAP, if thorough {26} else {22}, STEP_CAP);
+    let rule = format!("Generated: nested loops up to syntactic depth {} with iteration counts 0/1/2/3/65535/random and body lengths that overrun the program or the enclosing loop; doubling prefixes (dup;bappend / dup;vappend, k up to {}) followed by every consuming opcode; type-aware random programs; jump-heavy code; doubling inside counted loops of 1 to 65535 iterations (lengths pass 2^64 after ~60). Doubling prefixes of 40-58 steps (2^40..2^58 logical elements in shared nodes) feed consumers that never materialise the value: an equal huge value written over a vector slot that holds it, nested vectors of equal huge values. Oracle: (4) every covenant is first weighed and executed once in a worker process whose CPU time (utime+stime from /proc) must stay below 5 s + 10 microseconds per unit of weight (measured on the unchanged tree: at most ~0.5 microseconds per unit of weight, 1.1 s at weight 2x10^6; see the cpu-time-* classes); a run over the budget is cut off by killing the worker (2 s while a failure is being shrunk, and shrinking stops after two minutes); deterministic counters: (1) the real interpreter, stepped one instruction at a time through the cfg(melstf_verif) re-export, never executes more instructions than Covenant::weight() (runs with weight > {} are excluded and counted); (2) weight() equals the specification formula and needs <= 8n^2+64 weigh steps (thread-local counter hook); (3) peak heap bytes of weight()+execution <= 4 MiB + 16 KiB*(covenant bytes + weight) (one pushed value costs up to ~4.2 KiB in the persistent-vector representation, measured), measured by a counting allocator. Non-trivial = program contains a loop or a doubling prefix; distinct by bytecode.", NEST_CAP, if thorough {26} else {22}, STEP_CAP);
     (out, rule, None)
 }
 
